@@ -592,10 +592,10 @@ def specStep (s : SS) (line : String) : SS × String :=
             else s
           | none => s
         else s
+      let s := if kv ow "loop" == some "0" then s.flag "C14/callback-off-owner-goroutine" "a callback ran on a goroutine other than the run service's loop" else s
       let s := if ws.head? == some "rstop" && !cbs.isEmpty then
           s.flag "C14/callback-inside-stop" ("timer callbacks ran from inside StandardRunService.Stop: " ++ joinWith ";" cbs)
         else s
-      let s := if kv ow "loop" == some "0" then s.flag "C14/callback-off-owner-goroutine" "a callback ran on a goroutine other than the run service's loop" else s
       let s := if s.svc then svcPre s ow else s
       let s := (toks ++ stray).foldl specTok s
       let s := if s.svc && (kv ow "own").isSome then svcIdle (svcPost s ow) toks ow else s
